@@ -26,6 +26,7 @@ import hostrun
 import mir2
 import mirsmt
 import report
+import second
 from engine_g import Case
 from mirsmt import Unsupported
 from model import (Project, S, V, Cp, FK, NUM, SUB, RANGE, PLURAL)
@@ -364,7 +365,7 @@ def decide_kernel(mir, shape, timeout_ms=30000, namespaces=False):
         sol.add(st1.pc)
         sol.add(z3.Not(claim))
         t0 = time.time()
-        r = sol.check()
+        r = second.check(sol, 'C20 path query')
         res["solver_s"] += time.time() - t0
         res["solver_checks"] += 1
         if r == z3.sat:
@@ -382,7 +383,7 @@ def decide_kernel(mir, shape, timeout_ms=30000, namespaces=False):
             sol.add(sl["domain"])
         sol.add(z3.Not(z3.Or([z3.And(st1.pc) if st1.pc else z3.BoolVal(True) for st1, _ in outs])))
         res["solver_checks"] += 1
-        if sol.check() != z3.unsat:
+        if second.check(sol, 'C20 coverage query', True) != z3.unsat:
             res["status"] = "sat"
             res["model"] = {"note": "some tree of this shape reaches no return"}
     if m.unwinding:
@@ -551,6 +552,9 @@ def run(tier, seed):
             print("VIOLATION property=C20 replay=%s" % path)
             print("  %s %s" % (b["case"], json.dumps(b["problems"])[:300]))
     wall = time.time() - t0
+    so, so_problems = second.verdict()
+    for pr in so_problems:
+        inconclusive.append("second opinion: " + pr)
     report.write_evidence(prop, tier, seed, "model_checking", {
         "evaluations": sum(r["paths"] for r in runs) or 1, "distinct_nontrivial": max(2, len(runs)),
         "rule": "one symbolic execution of get_icu_keys_inner -> find_used_datakey per tree shape; every MIR path is one evaluation; per path z3 checks, for each of the five options, membership in the resulting set against the statement, and finally that the paths cover every tree of the shape",
@@ -563,6 +567,7 @@ def run(tier, seed):
         "mir_calls_summarised": sorted({c for r in runs for c in r.get("calls", [])}),
         "concrete_stage": {"projects": n, "mismatches": len(bad)},
         "bounds": "tree shapes: up to 2 levels of subkey groups, up to 3 entries per level, up to 2 variables per value, up to 2 (thorough 3) formatters per variable, 2 or 3 namespaces; symbolic per slot: value is a literal or an interpolation, the variable counts nothing / a range / a plural, each formatter is any of the 7 kinds. Outside the solver: how the parser fills that tree (merging locales, foreign keys, namespaces) — the concrete stage places each family in 10 specific places and runs the real helper.",
+        "second_opinion": so,
         "inconclusive": inconclusive,
     }, wall, [
         "BTreeMap::values / BTreeSet iteration / InterpolationKeys::iter_vars yield the elements of the symbolic tree in order; HashSet::insert adds the option",
